@@ -74,6 +74,20 @@ pub fn stress_family() -> Vec<(&'static str, Vec<(String, String)>)> {
         ("handler-and-call", vec![f("base.s", "main:\n    la t0, h\n    csrrw zero, 5, t0\n    jal h\n    li a7, 10\n    ecall\nh:\nh2:\n    li s0, 1\n    ret\n")]),
         ("two-functions-one-exit-two-labels", vec![f("base.s", "main:\n    jal f\n    jal g\n    li a7, 10\n    ecall\nf:\n    li s0, 1\ng:\ng2:\n    li s1, 1\n    ret\n")]),
         ("loop-with-garbage-reads", vec![f("base.s", "main:\nL:\n    add a0, t0, t1\n    add a1, t1, t0\n    bnez a0, L\n    li a7, 10\n    ecall\n")]),
+        ("same-read-reached-from-two-calls-of-one-function", vec![f("base.s", "main:\n    li t0, 5\n    beqz a0, L1\n    jal f\n    j L2\nL1:\n    jal f\nL2:\n    mv a0, t0\n    li a7, 10\n    ecall\nf:\n    li a0, 1\n    ret\n")]),
+        ("same-read-reached-from-calls-of-two-functions", vec![f("base.s", "main:\n    li t0, 5\n    beqz a0, L1\n    jal f\n    j L2\nL1:\n    jal g\nL2:\n    add a0, t0, t0\n    li a7, 10\n    ecall\nf:\n    li a0, 1\n    ret\ng:\n    li a0, 2\n    ret\n")]),
+        ("entry-owned-by-two-functions-on-first-line", vec![f("base.s", "f:\n    li a0, 1\n    ret\ng:\n    j f\nmain:\n    jal f\n    jal g\n    li a7, 10\n    ecall\n")]),
+        ("two-jumps-into-one-function", vec![f("base.s", "main:\n    li a0, 1\n    beqz a0, A\n    j f\nA:\n    j f\nf:\n    li a0, 1\n    ret\nother:\n    jal f\n    li a7, 10\n    ecall\n")]),
+        ("garbage-read-in-a-shared-tail", vec![f("base.s", "main:\n    jal f\n    jal g\n    li a7, 10\n    ecall\nf:\n    li a0, 1\n    j tail\ng:\n    li a0, 2\ntail:\n    add a0, a0, t3\n    ret\n")]),
+        ("garbage-behind-an-ecall-and-from-function-entry", vec![f("base.s", "main:\n    jal f\n    li a7, 10\n    ecall\nf:\n    beqz a0, skip\n    li a7, 1\n    ecall\nskip:\n    mv a0, t0\n    ret\n")]),
+        ("garbage-behind-an-ecall-and-from-program-entry", vec![f("base.s", "main:\n    beqz a0, skip\n    li a7, 1\n    ecall\nskip:\n    mv a0, t0\n    li a7, 10\n    ecall\n")]),
+        ("saved-register-garbage-by-two-lints", vec![f("base.s", "f:\n    mv a0, s0\n    ret\nmain:\n    jal f\n    li a7, 10\n    ecall\n")]),
+        ("load-from-label-into-zero", vec![f("base.s", ".data\nvar: .word 5\n.text\nmain:\n    lw zero, var\n    li a7, 10\n    ecall\n    lw t0, var\n    sw t0, var, t1\n")]),
+        ("label-pseudo-instructions-in-data", vec![f("base.s", ".data\nvar: .word 5\n    lw t0, var\n    sw t0, var, t1\n.text\nmain:\n    li a7, 10\n    ecall\n")]),
+        (
+            "first-reads-at-equal-offsets-in-two-files",
+            vec![f("base.s", "main:\n    beqz a0, L\n    .include \"a.s\"\n    .include \"b.s\"\n"), f("a.s", "    mv a1, t0\n    li a7, 10\n    ecall\n"), f("b.s", "L:  mv a2, t0\n    li a7, 10\n    ecall\n")],
+        ),
         (
             "one-file-included-twice",
             vec![
